@@ -143,6 +143,8 @@ type rtClient struct {
 	errs  int
 	cuid  string
 	alias string
+
+	subscribed chan struct{}
 }
 
 func openRT(cli orda.Client, key, typ string, create bool, h *orda.Handlers) orda.Datatype {
@@ -197,13 +199,12 @@ func c18Realtime(c *core.Case) *core.Result {
 	})
 	var cls []*rtClient
 	waitState := func(x *rtClient) bool {
-		for i := 0; i < 500; i++ {
-			if x.dt.GetState() == model.StateOfDatatype_SUBSCRIBED {
-				return true
-			}
-			time.Sleep(10 * time.Millisecond)
+		select {
+		case <-x.subscribed:
+			return true
+		case <-time.After(5 * time.Second):
+			return false
 		}
-		return false
 	}
 	for i := 0; i < ncli; i++ {
 		x := &rtClient{alias: fmt.Sprintf("rt%d", i)}
@@ -211,14 +212,19 @@ func c18Realtime(c *core.Case) *core.Result {
 		if err := x.cli.Connect(); err != nil {
 			return c.Inconclusive("Connect: %v", err)
 		}
-		h := orda.NewHandlers(nil, nil, func(dt orda.Datatype, errs ...errors.OrdaError) {
+		x.subscribed = make(chan struct{})
+		var once sync.Once
+		h := orda.NewHandlers(func(dt orda.Datatype, old, new model.StateOfDatatype) {
+			if new == model.StateOfDatatype_SUBSCRIBED {
+				once.Do(func() { close(x.subscribed) })
+			}
+		}, nil, func(dt orda.Datatype, errs ...errors.OrdaError) {
 			x.mu.Lock()
 			x.errs += len(errs)
 			x.mu.Unlock()
 		})
 		x.dt = openRT(x.cli, key, typ, i == 0, h)
 		x.w = x.dt.(iface.Datatype)
-		x.w.SetLogger(crdt.Quiet)
 		x.cuid = x.w.GetCUID()
 		if !waitState(x) {
 			return c.Inconclusive("client %d did not complete its first sync", i)
